@@ -27,7 +27,7 @@ type FeatureLocal struct {
 	writeApprovalCallbacks []api.WriteApprovalCallbackFunc
 	muxWriteReceived       sync.Mutex
 	writeApprovalReceived  map[string]map[model.MsgCounterType]int
-	pendingWriteApprovals  map[string]map[model.MsgCounterType]*time.Timer
+	pendingWriteApprovals  map[string]map[model.MsgCounterType]*pendingWriteApproval
 
 	bindings      []*model.FeatureAddressType // bindings to remote features
 	subscriptions []*model.FeatureAddressType // subscriptions to remote features
@@ -45,7 +45,7 @@ func NewFeatureLocal(id uint, entity api.EntityLocalInterface, ftype model.Featu
 		functionDataMap:       make(map[model.FunctionType]api.FunctionDataCmdInterface),
 		responseMsgCallback:   make(map[model.MsgCounterType][]func(result api.ResponseMessage)),
 		writeApprovalReceived: make(map[string]map[model.MsgCounterType]int),
-		pendingWriteApprovals: make(map[string]map[model.MsgCounterType]*time.Timer),
+		pendingWriteApprovals: make(map[string]map[model.MsgCounterType]*pendingWriteApproval),
 		writeTimeout:          defaultMaxResponseDelay,
 	}
 
@@ -187,6 +187,16 @@ func (r *FeatureLocal) processWriteApprovalCallbacks(msg *api.Message) {
 	}
 }
 
+// A write that waits for its approval. SKI and message counter identify it only
+// as long as its connection exists: a device that connects again starts its
+// counters again. The remote device tells the write apart from a leftover of a
+// previous connection with the same SKI and counter (a timeout that had already
+// fired when the connection was removed, a late verdict of the application).
+type pendingWriteApproval struct {
+	timer  *time.Timer
+	device api.DeviceRemoteInterface
+}
+
 func (r *FeatureLocal) addPendingApproval(msg *api.Message) {
 	if r.Role() != model.RoleTypeServer ||
 		msg.DeviceRemote == nil ||
@@ -204,17 +214,19 @@ func (r *FeatureLocal) addPendingApproval(msg *api.Message) {
 	defer r.muxResponseCB.Unlock()
 
 	if _, ok := r.pendingWriteApprovals[ski]; !ok {
-		r.pendingWriteApprovals[ski] = make(map[model.MsgCounterType]*time.Timer)
+		r.pendingWriteApprovals[ski] = make(map[model.MsgCounterType]*pendingWriteApproval)
 	}
 	// a repeated message with the same counter must not orphan the timer
 	// of the first one, it could never be stopped or cleaned up anymore
-	if oldTimer, ok := r.pendingWriteApprovals[ski][msgCounter]; ok && oldTimer != nil {
-		oldTimer.Stop()
+	if old, ok := r.pendingWriteApprovals[ski][msgCounter]; ok && old.timer != nil {
+		old.timer.Stop()
 	}
 
-	r.pendingWriteApprovals[ski][msgCounter] = time.AfterFunc(r.writeTimeout, func() {
+	pending := &pendingWriteApproval{device: msg.DeviceRemote}
+	r.pendingWriteApprovals[ski][msgCounter] = pending
+	pending.timer = time.AfterFunc(r.writeTimeout, func() {
 		// if a verdict already decided this write, there is nothing to do
-		if !r.claimPendingApproval(ski, msgCounter) {
+		if !r.claimPendingApproval(msg) {
 			return
 		}
 
@@ -228,21 +240,36 @@ func (r *FeatureLocal) addPendingApproval(msg *api.Message) {
 // A write has to get exactly one outcome. The timeout and the deciding verdict
 // both have to claim the pending approval first and only the one that gets it
 // may apply the write or send the error result.
-func (r *FeatureLocal) claimPendingApproval(ski string, msgCounter model.MsgCounterType) bool {
+func (r *FeatureLocal) claimPendingApproval(msg *api.Message) bool {
+	ski := msg.DeviceRemote.Ski()
+	msgCounter := *msg.RequestHeader.MsgCounter
+
 	r.muxResponseCB.Lock()
 	defer r.muxResponseCB.Unlock()
 
-	timer, ok := r.pendingWriteApprovals[ski][msgCounter]
-	if !ok {
+	pending := r.pendingApprovalOf(msg)
+	if pending == nil {
 		return false
 	}
 
-	if timer != nil {
-		timer.Stop()
+	if pending.timer != nil {
+		pending.timer.Stop()
 	}
 	delete(r.pendingWriteApprovals[ski], msgCounter)
 
 	return true
+}
+
+// The pending approval of the write msg, nil if there is none (anymore) or if
+// the pending write with this SKI and counter came over another connection.
+// muxResponseCB has to be held.
+func (r *FeatureLocal) pendingApprovalOf(msg *api.Message) *pendingWriteApproval {
+	pending, ok := r.pendingWriteApprovals[msg.DeviceRemote.Ski()][*msg.RequestHeader.MsgCounter]
+	if !ok || pending.device != msg.DeviceRemote {
+		return nil
+	}
+
+	return pending
 }
 
 func (r *FeatureLocal) ApproveOrDenyWrite(msg *api.Message, err model.ErrorType) {
@@ -257,7 +284,7 @@ func (r *FeatureLocal) ApproveOrDenyWrite(msg *api.Message, err model.ErrorType)
 	msgCounter := *msg.RequestHeader.MsgCounter
 
 	r.muxResponseCB.Lock()
-	_, ok := r.pendingWriteApprovals[ski][msgCounter]
+	ok := r.pendingApprovalOf(msg) != nil
 	count := len(r.writeApprovalCallbacks)
 	r.muxResponseCB.Unlock()
 
@@ -285,7 +312,7 @@ func (r *FeatureLocal) ApproveOrDenyWrite(msg *api.Message, err model.ErrorType)
 	}
 
 	// the timeout or another verdict may have decided this write in the meantime
-	if !r.claimPendingApproval(ski, msgCounter) {
+	if !r.claimPendingApproval(msg) {
 		return
 	}
 
@@ -314,9 +341,9 @@ func (r *FeatureLocal) CleanWriteApprovalCaches(ski string) {
 
 	// stop the pending timers, otherwise they will still fire and send
 	// a timeout result to the removed connection
-	for _, timer := range r.pendingWriteApprovals[ski] {
-		if timer != nil {
-			timer.Stop()
+	for _, pending := range r.pendingWriteApprovals[ski] {
+		if pending.timer != nil {
+			pending.timer.Stop()
 		}
 	}
 
